@@ -292,6 +292,27 @@ def r6(ctx: Ctx) -> None:
         resting = [pol for c, pol, _ in p.conds if key(strip_ver(c)).startswith("(cancel.order in self.priority_queue")]
         rem = [e for e in calls(p) if calls_target(e, "OrderBook._remove") and key(strip_ver(kw(e, "order", 0) or NONE)) == "cancel.order"]
         if len(resting) != 1:
+            # the scan form: for o in queue: if o == cancel.order: _remove(cancel.order); break
+            scans = [l for l in loops(p) if key(strip_ver(l.iter)) == "self.priority_queue"]
+            if len(scans) == 1:
+                l = scans[0]
+                el = ("sym", f"{l.target[0]}∈{l.loopid}")
+                ops = set()
+                shape_ok = True
+                for bp in l.paths:
+                    rm = [e for e in calls(bp) if calls_target(e, "OrderBook._remove")]
+                    tests = [(strip_ver(c), pol) for c, pol, _ in bp.conds if strip_ver(c)[0] == "cmp" and {key(strip_ver(c)[2]), key(strip_ver(c)[3])} == {key(el), "cancel.order"}]
+                    if rm:
+                        shape_ok = shape_ok and len(rm) == 1 and key(strip_ver(kw(rm[0], "order", 0) or NONE)) in ("cancel.order", key(el)) and bp.exit[0] in ("break", "return") and any(pol for _, pol in tests)
+                        ops |= {c[1] for c, pol in tests if pol}
+                    else:
+                        shape_ok = shape_ok and bp.exit[0] in ("fall", "continue") and all(not pol for _, pol in tests) and bool(tests)
+                if shape_ok and "==" in ops:
+                    ctx.holds(f, l.node, "cancel removes the order iff it is still resting", "the queue is scanned for an order equal to the cancelled one, which is then removed")
+                    continue
+                if shape_ok and ops == {"is"}:
+                    ctx.violated(f, l.node, "cancel removes the order iff it is still resting", "the resting order is found by equality, as `in` does (an equal order is the same order: equal ids, C04.R10)", "the queue is scanned by identity only: a cancel that names the order through an equal object leaves it in the book")
+                    continue
             ctx.unrec(f, f.node, "cancel removes the order iff it is still resting", "membership test `cancel.order in self.priority_queue` not found on the path")
             continue
         inline = [e for e in p.walk_events() if (e.kind == "call" and e.data.get("mutates") is not None and key(strip_ver(e.data["mutates"])).endswith("priority_queue") and e.name != "heapify") or (e.kind in ("store", "del") and e.attr is None and e.base is not None and key(strip_ver(e.base)).endswith("priority_queue"))]
